@@ -7,6 +7,10 @@
 mod common;
 mod refhash;
 mod c16;
+mod engine;
+mod hllm;
+mod c02;
+mod replay;
 
 use common::{Ctx, Tier};
 
@@ -47,7 +51,16 @@ fn main() {
                 2
             }
         },
+        "replay" => {
+            if args.len() < 3 {
+                eprintln!("usage: mcx replay <path>");
+                2
+            } else {
+                replay::run(&args[2])
+            }
+        }
         "C16" => c16::run(&Ctx::new("C16", tier)),
+        "C02" => c02::run(&Ctx::new("C02", tier).with_filter(|k| !k.starts_with("hll.bounds"))),
         other => {
             eprintln!("unknown check {other}");
             2
